@@ -92,6 +92,7 @@ def handle (j : Json) : Except String Json := do
     let a ← getA
     return resToJson [a] (resOfOpt (a.addLeg (← legSOfJson (← field j "leg")) (← getInt (← field j "i"))
       (← getInt (← field j "axis")) (← boolList (← field j "nz"))))
+  | "flip_leg" => let a ← getA; return resToJson [a] (resOfOpt (a.flipLeg (← getNat (← field j "k"))))
   | "extend" =>
     let a ← getA
     return resToJson [a] (resOfOpt (a.extend (← getInt (← field j "axis")) (← legOfJson (← field j "extra"))))
